@@ -543,7 +543,10 @@ theorem k_runWith (special : SpecialFn) (mode : Mode) (c : Nat) (sig : Sig) (raw
   cases h : Cmd.regular sig.name with
   | some body =>
     intro s hs
-    rw [runWith_regular_run special mode c sig raw fromScript h]
+    cases hr : s.refuses c sig with
+    | true => rw [runWith_refused special mode c sig raw fromScript hr]; exact hs
+    | false =>
+    rw [runWith_regular_run special mode c sig raw fromScript h s hr]
     exact kit.regular s _ sig body _ _ raw hs
   | none =>
     unfold runWith
